@@ -121,7 +121,48 @@ fn c02_one(ti: usize, data: &[u8], extreme: Option<usize>, l: &mut Local) -> Cas
     Ok(())
 }
 
+/// Schema-free variant: the recorded data-model items of a value (fields that `skip_field` omits are simply
+/// absent) mapped through the wire-format rules == `to_allocvec`. Covers corpus types without a Schema impl too.
+fn c02_call_wire(ti: usize, data: &[u8], extreme: Option<usize>, l: &mut Local) -> CaseResult {
+    let t = &types()[ti];
+    let Some(v) = value(t, data, extreme, false) else { return Ok(()) };
+    let c = || cj(t, data, extreme, "C02");
+    let Ok(call) = v.call() else { return Ok(()) };
+    let mut want = vec![];
+    if crate::record_value::wire_of_call(&call, &mut want).is_err() {
+        return Ok(());
+    }
+    l.eval();
+    let got = no_panic(|| v.bytes()).map_err(|p| fail("corpus-wire", format!("{}: to_allocvec panicked: {}", t.name, p), c()))?;
+    if got.as_ref() != Ok(&want) {
+        return Err(fail(
+            "corpus-wire",
+            format!("{}: {} encodes to {:?} but the wire format prescribes {} for the data-model items it serialises as", t.name, v.dbg(), got.map(|b| hex(&b)), hex(&want)),
+            c(),
+        ));
+    }
+    if want.len() >= 2 {
+        l.nontrivial(&(t.name.as_str(), &want, 3u8));
+    }
+    l.class("corpus-type-call-wire");
+    Ok(())
+}
+
+pub fn c02_replay_call_wire(case: &Json, l: &mut Local) -> Option<CaseResult> {
+    if case.get("corpus_prop").and_then(|p| p.as_str()) != Some("C02") {
+        return None;
+    }
+    let ti = find(case["corpus_type"].as_str().unwrap_or(""))?;
+    let data = crate::runner::unhex(case["data"].as_str().unwrap_or(""));
+    let ex = case["extreme"].as_u64().map(|e| e as usize);
+    Some(c02_one(ti, &data, ex, l).and_then(|_| c02_call_wire(ti, &data, ex, l)))
+}
+
 pub fn c02(ctx: &Ctx) {
+    let n = ctx.tier.pick(600_000, 6_000_000);
+    ctx.par_proptest("corpus-types-call-wire", n / 2, || arb_case(|_| true), |(ti, d), l| c02_call_wire(*ti, d, None, l));
+    let exa = all_extremes(|_| true);
+    ctx.par_range("corpus-extremes-call-wire", exa.len() as u64, |i, l| c02_call_wire(exa[i as usize].0, &[], Some(exa[i as usize].1), l));
     let n = ctx.tier.pick(600_000, 6_000_000);
     ctx.par_proptest("corpus-types", n, || arb_case(|t| t.schema.is_some()), |(ti, d), l| c02_one(*ti, d, None, l));
     let ex = all_extremes(|t| t.schema.is_some());
